@@ -2,11 +2,11 @@ module sqv
 
 go 1.23.0
 
-require github.com/theory/sqljson v0.0.0
-
 require (
-	github.com/smasher164/xid v0.1.2 // indirect
-	golang.org/x/text v0.28.0 // indirect
+	github.com/smasher164/xid v0.1.2
+	github.com/theory/sqljson v0.0.0
 )
+
+require golang.org/x/text v0.28.0 // indirect
 
 replace github.com/theory/sqljson => /repo
